@@ -706,8 +706,9 @@ def r134(P, W, engs, rep):
                 if bad:
                     key2 = key + '<-' + ','.join(bad)
                     rep.ob('R13.4', key2, False,
-                           '%s() asserts `%s` under a condition that is vacuously true for aggregates without (floating) members: for the return type %s the assertion fails '
-                           'and the compiler aborts (SIGABRT) instead of generating code' % (f, cond.src() if cond is not None else '?', ', '.join(bad)),
+                           '%s() asserts `%s`, but for the aggregate type%s %s (constructible, at most 16 bytes) the guards before the assertion are passed and the asserted '
+                           'condition is false (a has_flonum test is vacuously true for an aggregate without members): the compiler aborts (SIGABRT) instead of generating code'
+                           % (f, cond.src() if cond is not None else '?', 's' if len(bad) > 1 else '', ', '.join(bad)),
                            where='codegen.c:%d' % call.line, facts={'failing_witnesses': bad, 'witnesses_tried': [n for n, w in wl]})
                 else:
                     rep.ob('R13.4', key, True, '', where='codegen.c:%d' % call.line)
